@@ -155,7 +155,7 @@ def _work(args):
     m = machine_for(prop)
     out = {'runs': 0, 'ops': 0, 'compared': 0, 'fired': {}, 'probes': {}, 'sigs': set(),
            'violations': [], 'known': {}, 'digests': {}, 'samples': [], 'timeouts': 0, 'nviol': 0,
-           'range': [lo, lo], 'crashes': []}
+           'range': [lo, lo], 'crashes': [], 'opmix': {}}
     for idx in range(lo, hi):
         if time.time() > deadline:
             break
@@ -164,6 +164,9 @@ def _work(args):
         out['runs'] += 1
         out['range'][1] = idx + 1
         out['ops'] += res['nops']
+        for o in run['ops']:
+            k = o['op'] + (':' + str(o.get('fn') or o.get('m') or o.get('what') or '') if (o.get('fn') or o.get('m') or o.get('what')) else '')
+            out['opmix'][k] = out['opmix'].get(k, 0) + 1
         out['compared'] += res['compared']
         for k, v in res['fired'].items():
             out['fired'][k] = out['fired'].get(k, 0) + v
@@ -357,7 +360,7 @@ def check(prop, tier, verif_seed, jobs=None, runs=None, budget=None):
              for lo in range(0, nruns, chunk)]
     agg = {'runs': 0, 'ops': 0, 'compared': 0, 'fired': {}, 'probes': {}, 'sigs': set(), 'violations': [],
            'known': {}, 'digests': {}, 'samples': [], 'timeouts': 0, 'nviol': 0, 'max_index': 0,
-           'reach': set(), 'crashes': []}
+           'reach': set(), 'crashes': [], 'opmix': {}}
     ctx = multiprocessing.get_context('fork')
     try:
         with concurrent.futures.ProcessPoolExecutor(max_workers=jobs, mp_context=ctx) as ex:
@@ -381,6 +384,8 @@ def check(prop, tier, verif_seed, jobs=None, runs=None, budget=None):
                     agg['samples'].extend(out['samples'])
                 agg['violations'].extend(out['violations'])
                 agg['crashes'].extend(out['crashes'][:2])
+                for k, v in out['opmix'].items():
+                    agg['opmix'][k] = agg['opmix'].get(k, 0) + v
     except concurrent.futures.process.BrokenProcessPool as e:
         print("HARNESS-ERROR worker died: %r" % e)
         return 2
@@ -413,6 +418,9 @@ def check(prop, tier, verif_seed, jobs=None, runs=None, budget=None):
         else:
             harness_err = "HARNESS-ERROR replay %s did not reproduce in a fresh interpreter (rc=%d)\n%s" % (path, rc, outp[-800:])
 
+    if world.lower_errors:
+        harness_err = "\n".join(world.lower_errors) + "\n(the compiled half of the configuration space did not run; " \
+                      "'held' cannot be said for it)"
     if agg['crashes']:
         harness_err = "HARNESS-ERROR %d run(s) raised inside the harness, e.g. run %d:\n%s" % (
             len(agg['crashes']), agg['crashes'][0][0], agg['crashes'][0][1])
@@ -470,6 +478,7 @@ def check(prop, tier, verif_seed, jobs=None, runs=None, budget=None):
             'seeds': 'VERIF_SEED=%d, run seeds sha256("%d:%s:%s:<i>")[:16] for i in [0,%d)' % (verif_seed, verif_seed, prop, m.MACHINE, agg['max_index']),
             'simulated_time_covered': "0 s: PySpike has no clock, timer, sleep or deadline; progress is counted in operations",
             'faults_fired': dict(sorted(agg['fired'].items())),
+            'operation_mix': dict(sorted(agg['opmix'].items())),
             'reach_probes': dict(sorted(agg['probes'].items())),
             'line_reach': reach.summarize(world, agg['reach'], getattr(m, 'REACH_FILES', {}).get(prop)),
             'known_findings_matched': agg['known'],
